@@ -5,8 +5,8 @@ import time
 from vf import Inconclusive, parallel, require_clean, validate_traces, vfj_lines, b2s
 
 CLAIM = {
-    "text": "ExprArray.tla specifies the array helpers on LISTS (a value is Render(list) = elements joined by NUL): @split/@join for any non-empty delimiter of any length, @len, @select/@slice (negative indices from the end, clamped), @map/@filter/@reduce/@for with their sub-expression evaluated per element by a TLA+ tree evaluator ({0},{1} bound as documented, named keys resolved in the enclosing match at every nesting depth, scalar helpers through C11's ExprScalar), @in, @range, {@ ..}/{$ ..}; a result is Render(specified list), so a stray or missing separator is a disagreement. TLC proves the property's laws on that evaluator (join(split(s,d),d)=s for every string, split(join(l,d),d)=l, index laws for indices in -(n+2)..n+2, slice concatenation, partition by a predicate and its negation, left folds, exact generator sequences, key resolution, the documentation's examples). ExprPool.tla models the pooled per-call sub-contexts written like the code (Get/init/set/eval/Return over objpool's mutex-protected free list, W goroutines, nested helpers) and TLC checks over all interleavings that every evaluation sees its own values and its own match's keys, that no object is held twice and none leaks - and that the model rejects the code shape without @for's initialisation or without the mutex. Binding: TLC enumerates lists of 0..3 elements over {'',a,bb} x delimiters {',', ', ', e-acute, 'ab'} x indices/lengths in and out of range x sub-expression pools x four ways of supplying the list, as HISTORIES of evaluations with expected results; the real compiler performs every history in one process on expressions compiled once per history (optimised and plain, quoted and unquoted sub-expressions), the pool-sensitive ones also from 8 goroutines at once; seeded random lists/delimiters/indices/sub-expressions are recorded and validated by TLC (ExprArray_Trace).",
-    "note": "Bounded: lists of at most 3-7 short elements, sub-expressions of depth <= 2, generators of at most 48 elements, integers within +-10^8. Outside the specified domain (only 'returns, no panic'): @map over the empty string unless the sub-expression maps '' to '', @in against '', delimiters/initial values that are not constants, empty @join delimiter, negative @slice length, @range whose direction contradicts its increment, {i} other than the documented bindings inside a sub-expression, elements containing NUL. With an explicit length and a negative start before the first element @slice may count the length from either the clamped or the virtual start. Real goroutine interleavings are sampled, not enumerated (the enumeration is on the model). Trusted: TLC, the Go runtime, C11's scalar specification.",
+    "text": "ExprArray.tla specifies the array helpers on LISTS (a value is Render(list) = elements joined by NUL): @split/@join for any non-empty delimiter of any length, @len, @select/@slice (negative indices from the end, clamped), @map/@filter/@reduce/@for with their sub-expression evaluated per element by a TLA+ tree evaluator ({0},{1} bound as documented, named keys resolved in the enclosing match at every nesting depth, scalar helpers through C11's ExprScalar), @in, @range, {@ ..}/{$ ..}; integer arguments range over the WHOLE 64-bit type (ExprWideInt.tla: exact add / subtract / compare on decimal digit sequences, because TLC's integers have 32 bits), so @range / @select / @slice / @for-with-sumi are specified next to -2^63, 0 and 2^63-1 too; a result is Render(specified list), so a stray or missing separator is a disagreement. TLC proves the property's laws on that evaluator (join(split(s,d),d)=s for every string, split(join(l,d),d)=l, index laws for indices in -(n+2)..n+2, slice concatenation, partition by a predicate and its negation, left folds, exact generator sequences, key resolution, the documentation's examples). ExprArrayWidth.tla runs the loops of @range and @slice, written like the code, on a machine with 3..6-bit wrap-around integers for EVERY argument value: they emit exactly the specified list and terminate, while the element count computed up front from a wrapping stop - start, the loop without the overflow guard and the end test start + length are refuted; scaling by 2^(64-Bits) carries the small machine into the 64-bit one (law embed). ExprPool.tla models the pooled per-call sub-contexts written like the code (Get/init/set/eval/Return over objpool's mutex-protected free list, W goroutines, nested helpers) and TLC checks over all interleavings that every evaluation sees its own values and its own match's keys, that no object is held twice and none leaks - and that the model rejects the code shape without @for's initialisation or without the mutex. Binding: TLC enumerates lists of 0..3 elements over {'',a,bb} x delimiters {',', ', ', e-acute, 'ab'} x indices/lengths in and out of range x sub-expression pools x four ways of supplying the list, plus every start / stop / increment of the 3-bit (thorough: 4-bit) machine embedded at 64 bits, values next to the ends of the type with small and huge increments, positions and lengths no list reaches, as HISTORIES of evaluations with expected results; the real compiler performs every history in one process on expressions compiled once per history (optimised and plain, quoted and unquoted sub-expressions), the pool-sensitive ones also from 8 goroutines at once; seeded random lists/delimiters/indices/sub-expressions are recorded and validated by TLC (ExprArray_Trace).",
+    "note": "Bounded: lists of at most 3-7 short elements, sub-expressions of depth <= 2, generators of at most 48 elements; integer texts that are not int64 values are outside the domain. Outside the specified domain (only 'returns, no panic'): @map over the empty string unless the sub-expression maps '' to '', @in against '', delimiters/initial values that are not constants, empty @join delimiter, negative @slice length, @range whose direction contradicts its increment, {i} other than the documented bindings inside a sub-expression, elements containing NUL. With an explicit length and a negative start before the first element @slice may count the length from either the clamped or the virtual start. Real goroutine interleavings are sampled, not enumerated (the enumeration is on the model). Trusted: TLC, the Go runtime, C11's scalar specification.",
     "technique": "TLA+ functional specification + implementation-shaped pool state machine model-checked with TLC + model-generated evaluation histories replayed on the real code (sequentially and from concurrent goroutines) + TLC validation of recorded evaluations",
 }
 
@@ -20,6 +20,12 @@ def _pool_cfg(w, j, p, e, progs, initfor=True, locked=True):
     return ("SPECIFICATION Spec\nCONSTANTS W = %d\n J = %d\n P = %d\n E = %d\n Progs <- %s\n InitFor = %s\n Locked = %s\n"
             "INVARIANTS TypeOK Exclusive SeesOwn NoLeak Bounded MutexOK\nCHECK_DEADLOCK FALSE\n"
             % (w, j, p, e, progs, "TRUE" if initfor else "FALSE", "TRUE" if locked else "FALSE"))
+
+
+def _width_cfg(bits, maxn, rd="guard", sd="diff", live=True):
+    return ("SPECIFICATION Spec\nCONSTANTS Bits = %d\n MaxN = %d\n RangeDesign = \"%s\"\n SliceDesign = \"%s\"\n"
+            "INVARIANTS TypeOK RangePrefix RangeFinal SlicePrefix SliceFinal Steps ClosedForm\n%sCHECK_DEADLOCK FALSE\n"
+            % (bits, maxn, rd, sd, "PROPERTY Terminates\n" if live else ""))
 
 
 def check(run):
@@ -59,7 +65,7 @@ def _check(run):
 
     # ---- B3 (a): the property's laws on the evaluator
     def laws():
-        r = run.tlc("ExprArray_MC", _gen_cfg("LawHolds", not quick), workers=2, timeout=1800,
+        r = run.tlc("ExprArray_MC", _gen_cfg("LawHolds", not quick), workers=1 if quick else 2, timeout=1800,
                     label="ExprArray_MC laws Thorough=%s" % (not quick))
         require_clean(run, r, "ExprArray_MC (laws)")
         if r.distinct < 10000:
@@ -84,11 +90,40 @@ def _check(run):
         run.cov["pool_model_rejects"] = neg
         return out
 
+    # ---- B3 (c): integers of the whole 64-bit type - the digit arithmetic the specification computes with, and the
+    # loops of @range / @slice on a Bits-bit machine (every argument value); the designs that are not in the code are refuted
+    def wide():
+        r = run.tlc("ExprWideInt_MC", _gen_cfg("LawHolds", not quick), workers=1 if quick else 3, timeout=1800,
+                    label="ExprWideInt_MC laws Thorough=%s" % (not quick))
+        require_clean(run, r, "ExprWideInt_MC (laws)")
+        if r.distinct < 15000:
+            raise Inconclusive("wide-integer law check explored only %d cases" % r.distinct)
+
+    def width():
+        total = 0
+        for bits, maxn in ([(3, 2), (4, 3)] if quick else [(3, 2), (4, 3), (5, 4), (6, 4)]):
+            r = run.tlc("ExprArrayWidth", _width_cfg(bits, maxn), workers=1 if bits < 6 else 3, timeout=1800,
+                        label="ExprArrayWidth Bits=%d (designs of the code)" % bits)
+            require_clean(run, r, "ExprArrayWidth Bits=%d" % bits)
+            total += r.distinct
+        if total < 9000:
+            raise Inconclusive("width model explored only %d states" % total)
+        neg = {}
+        for name, rd, sd, inv in [("range-count-up-front", "count", "diff", "RangeFinal"), ("range-loop-without-overflow-guard", "noguard", "diff", "RangePrefix"),
+                                  ("slice-end-as-start-plus-length", "guard", "sum", "SliceFinal")]:
+            r = run.tlc("ExprArrayWidth", _width_cfg(4, 3, rd, sd, live=False), workers=1, timeout=900,
+                        label="ExprArrayWidth negative: %s" % name)
+            if inv not in r.violated:
+                raise Inconclusive("ExprArrayWidth does not reject the %s design (violated=%s)\n%s" % (name, r.violated, r.out[-1500:]))
+            neg[name] = inv
+        run.cov["width_model_rejects"] = neg
+        run.cov["width_model_states"] = total
+
     def pool_big():
         cfgs = [(2, 1, 1, 2, "ProgsAll")] if quick else [(2, 2, 1, 1, "ProgsAll"), (2, 2, 2, 1, "ProgsAll"), (2, 2, 2, 2, "ProgsFlat"), (3, 1, 1, 1, "ProgsMix")]
         total = 0
         for (w, j, p, e, progs) in cfgs:
-            r = run.tlc("ExprPool_MC", _pool_cfg(w, j, p, e, progs), workers=4, timeout=3000,
+            r = run.tlc("ExprPool_MC", _pool_cfg(w, j, p, e, progs), workers=3, timeout=3000,
                         label="ExprPool W=%d J=%d P=%d E=%d %s" % (w, j, p, e, progs))
             require_clean(run, r, "ExprPool W=%d J=%d P=%d %s" % (w, j, p, progs))
             total += r.distinct
@@ -97,7 +132,7 @@ def _check(run):
 
     # ---- B1: TLC enumerates histories with expectations; the real compiler performs them
     def gen():
-        r = run.tlc("ExprArray_Gen", _gen_cfg("Dump", not quick), workers=4, timeout=3000,
+        r = run.tlc("ExprArray_Gen", _gen_cfg("Dump", not quick), workers=3, timeout=3000,
                     label="ExprArray_Gen Thorough=%s" % (not quick))
         if r.violated or r.errors or not r.finished:
             raise Inconclusive("generator failed: %s" % r.out[-2000:])
@@ -143,7 +178,7 @@ def _check(run):
             rec["canary"] = True
             lines.append(json.dumps(rec, separators=(",", ":")))
             ncan += 1
-        k = 3 if quick else 8
+        k = 2 if quick else 6
         per = (len(lines) + k - 1) // k
         chunks = []
         for i in range(k):
@@ -160,10 +195,10 @@ def _check(run):
 
         return chunks, parallel([lambda i=i, pth=pth: val(i, pth) for i, pth, _ in chunks], k), len(b2_lines)
 
-    # phase 1: generator (4 workers) + laws (2) + small pool configurations (1)
-    nvec, _, _ = parallel([gen, laws, pool_small], 3)
-    # phase 2: replay, B2 validation (k x 1 worker) + the large pool configuration (4 workers)
-    b12, _ = parallel([replay_and_trace, pool_big], 2)
+    # phase 1: generator (4 workers) + laws (2) + small pool configurations (1) + wide integers / width model (1)
+    nvec, _, _, _ = parallel([gen, laws, pool_small, wide], 4)
+    # phase 2: replay, B2 validation (k x 1 worker) + the large pool configuration (3 workers) + the width model (1)
+    b12, _, _ = parallel([replay_and_trace, pool_big, width], 3)
 
     for h in hang:
         if h.get("crash"):
@@ -193,6 +228,8 @@ def _check(run):
     run.cov["traces_validated_against_impl"] += res["runs"] + res["concurrent_runs"]
     run.cov["evaluations"] += res["runs"] + res["concurrent_runs"]
     run.cov["distinct_nontrivial"] += res["distinct_nontrivial"]
+    if res["per_group"].get("wide", 0) < 2500:
+        raise Inconclusive("only %s histories with integers of the whole 64-bit type" % res["per_group"].get("wide", 0))
     if res["unprintable"]:
         raise Inconclusive("%d generated steps could not be written as templates" % res["unprintable"])
     if res["goroutines"] < 4 or res["concurrent_runs"] < 10000:
